@@ -1,8 +1,8 @@
 SPECIFICATION Spec
 CONSTANTS
   Threads <- MCThreads
-  Catalogue <- MCCatalogue
+  Catalogue <- RecursiveCatalogue
   GuardEnabled = TRUE
   NoThread = 0
-  RecursiveScrape = FALSE
+  RecursiveScrape = TRUE
 INVARIANTS Linearizable NoLostAnnounce NoOrphanWrite LockSanity
